@@ -1,6 +1,6 @@
 (* CheckC05.v — executable comparison of what the implementation wrote / delivered with the
    encoder model (M_ results) and with the independent decoder and the property's own clauses (V_ results). *)
-From MQ Require Import Base Codec SpecDecode Inbound Parse.
+From MQ Require Import Base Codec SpecDecode Inbound Parse C05Flows.
 Open Scope N_scope.
 
 Definition bytes_eqb := list_eqb N.eqb.
@@ -199,3 +199,192 @@ Definition inbig_ok (c : list N * N * N) : bool :=
      end.
 
 Definition c05_inbig_violations (cs : list (list N * N * N)) : list nat := indices_where (fun c => negb (inbig_ok c)) cs.
+
+(* compact literal for the harness: the n bytes s, s+3, s+6, ... (mod 256); generated payloads are such
+   progressions, so that long ones cross the boundary as two numbers *)
+Fixpoint ap3_nat (s : N) (n : nat) : list N :=
+  match n with O => [] | S k => (s mod 256) :: ap3_nat (s + 3) k end.
+Definition ap3 (s n : N) : list N := ap3_nat s (N.to_nat n).
+Fixpoint ap1_nat (s : N) (n : nat) : list N :=
+  match n with O => [] | S k => (s mod 256) :: ap1_nat (s + 1) k end.
+Definition ap1 (s n : N) : list N := ap1_nat s (N.to_nat n).
+(* letters 'a'+k, 'a'+k+1, ... cycling through the alphabet *)
+Fixpoint az_nat (k : N) (n : nat) : list N :=
+  match n with O => [] | S j => (97 + k mod 26) :: az_nat (k + 1) j end.
+Definition az (k n : N) : list N := az_nat k (N.to_nat n).
+
+(* ---------- inbound sequences: PUBLISH of every QoS, PUBREL, routed packets in between ---------- *)
+(* the whole broker stream read by the independent decoder *)
+Fixpoint spec_decode_all (fuel : nat) (bs : list N) : option (list packet) :=
+  match fuel with
+  | O => None
+  | S f =>
+      match bs with
+      | [] => Some []
+      | _ => match spec_decode bs with
+             | Some (p, r) => match spec_decode_all f r with Some l => Some (p :: l) | None => None end
+             | None => None
+             end
+      end
+  end.
+
+(* broker-to-client packets as the receiver specification of Inbound.v sees them; a packet that a
+   broker never sends makes the case invalid *)
+Fixpoint flow_of_packets (ps : list packet) : option (list in_pkt) :=
+  match ps with
+  | [] => Some []
+  | p :: r =>
+      match flow_of_packets r with
+      | None => None
+      | Some l =>
+          match p with
+          | PPublish dup q rt t id pl =>
+              Some (InPublish {| m_topic := t; m_id := match id with Some i => i | None => 0 end; m_qos := q;
+                                 m_retain := rt; m_dup := dup; m_payload := pl |} :: l)
+          | PPubRel id => Some (InPubRel id :: l)
+          | PConnAck _ _ | PPubAck _ | PPubRec _ | PPubComp _ | PSubAck _ _ | PUnsubAck _ | PPingResp => Some l
+          | _ => None
+          end
+      end
+  end.
+
+Definition inseq_case := (list N * list in_event)%type.
+
+(* property: the messages handed to the handler are, field by field (topic, id, QoS, retain, DUP,
+   payload), what the independent decoder reads from the encoded PUBLISH packets, released as the
+   receiver specification says, whatever arrived between a QoS 2 PUBLISH and its PUBREL *)
+Definition inseq_ok (c : inseq_case) : bool :=
+  let '(stream, obs) := c in
+  match spec_decode_all (S (length stream)) stream with
+  | Some pk =>
+      match flow_of_packets pk with
+      | Some fl => list_eqb message_eqb (hands obs) (hands (spec_run true os_empty fl))
+      | None => false
+      end
+  | None => false
+  end.
+
+(* model: the serve loop model on the same bytes makes the same hand-overs and writes the same
+   acknowledgements in the same order, and ends with io.EOF *)
+Definition inseq_model_ok (c : inseq_case) : bool :=
+  let '(stream, obs) := c in
+  let '(evs, e) := serve true stream in
+  list_eqb in_event_eqb (in_events evs) obs
+  && match e with EndErr EEOF => true | _ => false end.
+
+Definition c05_inseq_violations (cs : list inseq_case) : list nat := indices_where (fun c => negb (inseq_ok c)) cs.
+Definition c05_inseq_mismatches (cs : list inseq_case) : list nat := indices_where (fun c => negb (inseq_model_ok c)) cs.
+
+(* ---------- retry handles: every packet written on every connection of an interrupted request ---------- *)
+Inductive rop :=
+| RPub (m : message)              (* m_id = the identifier the library put on the wire; m_dup unused *)
+| RSub (subs : list (str * N))
+| RUnsub (ts : list str).
+
+(* request, identifier given by the caller (0 = none), where each connection was interrupted,
+   packets handed to the transport per connection (the CONNECT of each connection first) *)
+Definition retry_case := (rop * N * list N * list (list (list N)))%type.
+
+Definition decode_whole (b : list N) : option packet :=
+  match spec_decode b with Some (p, []) => Some p | _ => None end.
+
+Fixpoint decode_conn (ws : list (list N)) : option (list packet) :=
+  match ws with
+  | [] => Some []
+  | w :: r => match decode_whole w, decode_conn r with
+              | Some p, Some l => Some (p :: l)
+              | _, _ => None
+              end
+  end.
+
+(* each connection starts with a well-formed CONNECT; what follows it, decoded *)
+Fixpoint decode_conns (cs : list (list (list N))) : option (list (list packet)) :=
+  match cs with
+  | [] => Some []
+  | c :: r =>
+      match decode_conn c, decode_conns r with
+      | Some (PConnect _ _ _ _ _ _ _ :: l), Some ls => Some (l :: ls)
+      | _, _ => None
+      end
+  end.
+
+(* PUBLISH/PUBREL sequence of one request over all its connections:
+   [first] = no PUBLISH was sent yet, [rel] = a PUBREL was already sent *)
+Fixpoint pubseq_ok (m : message) (first rel : bool) (ps : list packet) : bool :=
+  match ps with
+  | [] => true
+  | PPublish dup q rt t id pl :: r =>
+      negb rel                                              (* MQTT 4.3.3: no PUBLISH once PUBREC was received *)
+      && Bool.eqb dup (negb first)                          (* DUP exactly on re-deliveries, MQTT-3.3.1-1 *)
+      && (q =? m_qos m) && Bool.eqb rt (m_retain m) && str_eqb t (m_topic m)
+      && option_eqb N.eqb id (Some (m_id m)) && str_eqb pl (m_payload m)
+      && pubseq_ok m false rel r
+  | PPubRel id :: r =>
+      (m_qos m =? 2) && negb first && (id =? m_id m) && pubseq_ok m first true r
+  | _ => false
+  end.
+
+Definition is_pubrel (p : packet) : bool := match p with PPubRel _ => true | _ => false end.
+
+Definition retry_ok (c : retry_case) : bool :=
+  let '(op, given, cuts, conns) := c in
+  Nat.eqb (length cuts) (length conns)
+  && match decode_conns conns with
+     | None => false                                        (* some packet is not well-formed MQTT 3.1.1 *)
+     | Some ls =>
+         forallb (fun l => negb (Nat.eqb (length l) 0)) ls  (* every attempt sends something *)
+         && match op with
+            | RPub m =>
+                ((m_qos m =? 1) || (m_qos m =? 2)) && negb (m_id m =? 0) && ((given =? 0) || (given =? m_id m))
+                && pubseq_ok m true false (concat ls)
+                && (if m_qos m =? 2 then match rev (concat ls) with p :: _ => is_pubrel p | [] => false end else true)
+            | RSub subs =>
+                forallb (fun l => match l with
+                                  | [PSubscribe id ss] => subs_eqb ss subs && negb (id =? 0)
+                                  | _ => false end) ls
+            | RUnsub ts =>
+                forallb (fun l => match l with
+                                  | [PUnsubscribe id tps] => list_eqb str_eqb tps ts && negb (id =? 0)
+                                  | _ => false end) ls
+            end
+     end.
+
+Fixpoint olist_eqb (a : list (option (list N))) (b : list (list N)) : bool :=
+  match a, b with
+  | [], [] => true
+  | x :: a', y :: b' => obytes_eqb x (Some y) && olist_eqb a' b'
+  | _, _ => false
+  end.
+
+Fixpoint conns_eqb (a : list (list (option (list N)))) (b : list (list (list N))) : bool :=
+  match a, b with
+  | [], [] => true
+  | x :: a', y :: b' => olist_eqb x y && conns_eqb a' b'
+  | _, _ => false
+  end.
+
+Fixpoint drop_connects (cs : list (list (list N))) : list (list (list N)) :=
+  match cs with [] => [] | c :: r => tl c :: drop_connects r end.
+
+Definition packet_id_of (b : list N) : N :=
+  match decode_whole b with
+  | Some (PSubscribe id _) | Some (PUnsubscribe id _) => id
+  | _ => 0
+  end.
+
+(* model: the bytes are those of the encoder model, in the number and order pub_run says *)
+Definition retry_model_ok (c : retry_case) : bool :=
+  let '(op, given, cuts, conns) := c in
+  let ws := drop_connects conns in
+  match op with
+  | RPub m => conns_eqb (pub_run m (PSend false) cuts) ws
+  | RSub subs =>
+      Nat.eqb (length cuts) (length ws)
+      && forallb (fun l => match l with [b] => obytes_eqb (pack_subscribe (packet_id_of b) subs) (Some b) | _ => false end) ws
+  | RUnsub ts =>
+      Nat.eqb (length cuts) (length ws)
+      && forallb (fun l => match l with [b] => obytes_eqb (pack_unsubscribe (packet_id_of b) ts) (Some b) | _ => false end) ws
+  end.
+
+Definition c05_retry_violations (cs : list retry_case) : list nat := indices_where (fun c => negb (retry_ok c)) cs.
+Definition c05_retry_mismatches (cs : list retry_case) : list nat := indices_where (fun c => negb (retry_model_ok c)) cs.
